@@ -118,7 +118,27 @@ def table(prog, rep):
     rep.ob(rule, "leaf codes equal their root paths (LSB first)", not mism,
            "all %d symbols: stored (bits, num_bits) == path from the root" % ns if not mism else "mismatching symbols: %s" % mism[:3], at)
     rep.ob(rule, "code lengths fit the u24 representation", 0 < maxbits <= 24, "longest code has %d bits" % maxbits, at)
-    rep.extra["huffman_table"] = {"nodes": nn, "symbols": ns, "max_code_bits": maxbits}
+    minbits = min((nodes[i][0] >> 8) for i in range(ns - 1)) if ns > 1 else 0      # shortest code of a byte symbol (EOF excluded)
+    rep.extra["huffman_table"] = {"nodes": nn, "symbols": ns, "max_code_bits": maxbits, "min_code_bits": minbits}
+    # decompress_into_vec sizes its output as input.len() * K: every output byte consumes at least `minbits` input bits,
+    # so K * minbits >= 8 is needed for the densest valid stream to fit (a capacity error is reported as InvalidInput there)
+    dv = prog.one(H + "Huffman::decompress_into_vec")
+    dir_ = IR(dv)
+    ks = []
+    for bi, t in dv.calls():
+        if (t.get("callee") or "").endswith("Vec::with_capacity"):
+            e = dir_.term_operand(bi, t["args"][0])
+            if e[0] == "bin" and e[1] == "Mul":
+                for x in (e[2], e[3]):
+                    if x[0] == "c":
+                        ks.append((x[1], t.get("ln")))
+    rep.floor("R1-table-agreement", len(ks), 1, "Vec::with_capacity(input.len() * K) in decompress_into_vec")
+    for k, ln in ks:
+        okk = minbits > 0 and k * minbits >= 8
+        rep.ob("R1-table-agreement", "decompress_into_vec capacity covers the densest stream", okk,
+               "capacity %d bytes per input byte; the shortest byte code has %d bit(s), so at most %d output bytes per input byte" % (k, minbits, -(-8 // max(minbits, 1)))
+               if okk else "capacity is %d bytes per input byte but the shortest code has %d bit(s): a valid stream can expand %d-fold and is then reported as InvalidInput"
+               % (k, minbits, -(-8 // max(minbits, 1))), dv.loc(ln))
     # the decoder treats idx < NUM_SYMBOLS as leaves: get_node compares with NUM_SYMBOLS
     g = prog.one(H + "Huffman::get_node")
     gir = IR(g)
